@@ -243,10 +243,24 @@ def run(ck):
     # 4. (run first: it is also the failing-input search of the broken obligations)
     runs = directed_runs() + [gen_run(rng) for _ in range(600 if ck.quick else 12000)]
     pr = c48lib.run_harness(ck, harness, "".join(r["line"] + "\n" for r in runs))
-    if pr.returncode != 0:
-        ck.violation("harness-crash", "the implementation harness aborted (sanitizer or crash)",
-                     {"stderr": pr.stderr[-3000:]}, False)
     rout = pr.stdout.splitlines()
+    if pr.returncode != 0:
+        # the harness aborted (sanitizer or crash) and the answers of the whole batch are lost: the runs are done
+        # again in one process per acceleration algorithm, so that the groups that survive are still compared
+        rout = ["missing"] * len(runs)
+        groups = {}
+        for i, r in enumerate(runs):
+            groups.setdefault(r["acceleration"], []).append(i)
+        for aa, idx in sorted(groups.items()):
+            pg = c48lib.run_harness(ck, harness, "".join(runs[i]["line"] + "\n" for i in idx))
+            lines = pg.stdout.splitlines()
+            if pg.returncode != 0 or len(lines) != len(idx):
+                ck.violation("harness-crash:" + aa, "the implementation harness aborted (sanitizer or crash) on the runs with "
+                             "the acceleration algorithm '%s'" % aa, {"stderr": pg.stderr[-3000:],
+                                                                       "first_request_of_the_group": runs[idx[0]]["line"]}, False)
+                continue
+            for i, l in zip(idx, lines):
+                rout[i] = l
     hist = {}
     compared = 0
     rejected_total = 0
